@@ -62,7 +62,10 @@ def calculate_normal_3d(polygon):
         normal[0] += minus[1] * plus[2]
         normal[1] += minus[2] * plus[0]
         normal[2] += minus[0] * plus[1]
-    if near_zero(normal):
+    # Degeneracy is judged relative to the polygon's size (sum of squared edge lengths),
+    # so that small polygons are not rejected because of the unit of length.
+    size = sum(np.dot(p2 - p1, p2 - p1) for p1, p2 in looped_pairs(polygon))
+    if np.dot(normal, normal) <= 1E-16 * size * size:
         raise ValueError("No normal found")
     else:
         return normal
